@@ -4,6 +4,8 @@ import json, os
 ROOT = os.path.dirname(os.path.abspath(__file__))
 
 PBT = "property-based testing with proptest (choice-tape generators, 16 deterministic shards, shrinking, replay files)"
+TAPE_FUZZ = "; thorough tier additionally: coverage-guided libFuzzer campaign (ASan) whose input bytes are the choice tape of the same generator, with the same oracle inside the target"
+TAPE_FUZZ_PROPS = {"C02", "C03", "C04", "C07", "C08", "C09", "C12", "C13", "C14", "C15", "C16", "C17", "C18", "C19"}
 CLAIMED = {
  "C01": dict(
   technique="stateful " + PBT + ": generated call histories over a pool of maps with a recurrence invariant and purity check, plus a two-process differential on the same seeded histories",
@@ -127,7 +129,7 @@ def main():
             "engine": "rosu-verif",
             "level_claimed": {"category": c.get("category", "exploration"), "text": c["text"], "design_ref": c["ref"]},
             "level_note": c["note"],
-            "technique": c["technique"],
+            "technique": c["technique"] + (TAPE_FUZZ if pid in TAPE_FUZZ_PROPS else ""),
         })
     manifest = {
         "version": 1,
